@@ -322,6 +322,36 @@ fn check_int_literal(text: &str, expected: Option<i64>, rep: &mut Report) {
         }
     }
     rep.sample("intlit", 4, || Obj::new().s("literal", text).s("expected", &format!("{expected:?}")).render());
+    // the same spelling behind a minus sign: a value literal of its own for `Variable::from_str` (down to MIN_INT),
+    // unary minus applied to the literal in a program
+    let cleaned: String = text.chars().filter(|c| *c != '_').collect();
+    let (rdx, digits) = if let Some(r) = cleaned.strip_prefix("0b") { (2, r) } else if let Some(r) = cleaned.strip_prefix("0o") { (8, r) } else if let Some(r) = cleaned.strip_prefix("0x") { (16, r) } else { (10, cleaned.as_str()) };
+    let magnitude = u128::from_str_radix(digits, rdx).ok();
+    let neg = format!("-{text}");
+    let want_value: Option<i64> = magnitude.filter(|m| *m <= 1u128 << 63).map(|m| (m as i128).wrapping_neg() as i64);
+    let want_program: Option<i64> = expected.map(|e| e.wrapping_neg());
+    for (route, want) in [("from_str", want_value), ("program", want_program)] {
+        rep.evaluations += 1;
+        rep.count(&format!("intlit_negative_{route}"));
+        let out: Result<Result<Variable, String>, real::PanicInfo> = if route == "from_str" {
+            real::guarded(|| Variable::from_str(&neg).map_err(|e| real::error_variant(&e)))
+        } else {
+            match real::parse_exec(&neg, false) {
+                Outcome::Value(v) => Ok(Ok(v)),
+                Outcome::Rejected(e, _) => Ok(Err(e)),
+                Outcome::ExecErr(_, e) => Ok(Err(format!("exec:{e}"))),
+                Outcome::Panic(p) => Err(p),
+            }
+        };
+        let key = format!("c20:intlit-negative:{route}:{radix}");
+        match (want, out) {
+            (_, Err(p)) => rep.violation(&format!("{key}:panic:{}", p.site()), &format!("{neg}: panicked: {}", p.short_msg()), "c20-intlit", text),
+            (Some(e), Ok(Ok(Variable::Int(g)))) if e == g => {}
+            (None, Ok(Err(v))) if v == "IntegerOverflow" => {}
+            (Some(e), Ok(other)) => rep.violation(&format!("{key}:wrong-value"), &format!("{neg} should denote {e}, got {:?}", other.map(|v| canon(&v))), "c20-intlit", text),
+            (None, Ok(other)) => rep.violation(&format!("{key}:overflow-not-rejected"), &format!("{neg} is below MIN_INT / its literal exceeds int and must be rejected as too big, got {:?}", other.map(|v| canon(&v))), "c20-intlit", text),
+        }
+    }
 }
 
 pub fn run(cfg: &Cfg, rep: &mut Report) {
@@ -367,6 +397,13 @@ pub fn run(cfg: &Cfg, rep: &mut Report) {
         }
         for v in &fixed {
             check_value(v, rep);
+        }
+        // a backslash (one, two, three) followed by every printable ASCII character, alone and inside text
+        for c in (0x20u32..0x7f).filter_map(char::from_u32) {
+            for bs in ["\\", "\\\\", "\\\\\\"] {
+                check_value(&Variable::String(Arc::from(format!("{bs}{c}"))), rep);
+                check_value(&Variable::String(Arc::from(format!("C:{bs}{c}ric{bs}"))), rep);
+            }
         }
         // all 1-char strings over the C0/C1 range followed by a digit
         for c in (0u32..0xA0).filter_map(char::from_u32) {
